@@ -221,9 +221,20 @@ func (t DeployTransition) do(env *Environment) (err error) {
 	if wfStatus != task.ACTIVE {
 		log.WithField("partition", env.Id().String()).
 			Infof("waiting %s for workflow to become active", deploymentTimeout.String())
+		// Status notifications are sent without blocking and can be dropped while this loop is busy
+		// with a previous one, so we also re-read the workflow status periodically.
+		statusRecheck := time.NewTicker(500 * time.Millisecond)
+		defer statusRecheck.Stop()
+		deploymentDeadline := time.After(deploymentTimeout)
 	WORKFLOW_ACTIVE_LOOP:
 		for {
 			select {
+			case <-statusRecheck.C:
+				if wfStatus = wf.GetStatus(); wfStatus == task.ACTIVE {
+					break WORKFLOW_ACTIVE_LOOP
+				}
+				continue
+
 			case wfStatus = <-notifyStatus:
 				log.WithField("status", wfStatus.String()).
 					WithField("partition", env.Id().String()).
@@ -260,7 +271,7 @@ func (t DeployTransition) do(env *Environment) (err error) {
 				}
 				continue
 
-			case <-time.After(deploymentTimeout):
+			case <-deploymentDeadline:
 				wfStatus = wf.GetStatus()
 				inactiveTaskRoles := make([]string, 0)
 				undeployableTaskRoles := make([]string, 0)
